@@ -409,9 +409,14 @@ def oracle_eigs(c, obs):
             q = x / r
     noise = epsm * scale * n
     # normalising a remainder of norm r amplifies rounding noise by noise/r: that is the accuracy the second block can have
-    acc = max(1e-2 if f32 else 1e-6, 1e3 * noise / r) if r else None
-    if r is not None and r > 100.0 * c["tol"] * aq0 and r > 1e3 * noise and acc <= 3e-2:
-        lam = np.linalg.eigvals(S)
+    # ... times the conditioning of the eigenvalue problem itself (non-normal blocks): the spectrum clause is only demanded
+    # where the coupling is well above rounding level relative to the operator (r >= 1e-4 ||A q_0||) and the eigenvector
+    # basis is well conditioned; below that only clause (i) applies (a false alarm on the unchanged tree at seed 7 showed
+    # that 1e3*noise/r alone under-estimates the attainable accuracy for couplings around 1e-7)
+    lam, Vs = np.linalg.eig(S)
+    kV = np.linalg.cond(Vs)
+    acc = max(1e-2 if f32 else 1e-6, 1e3 * noise / r * max(1.0, kV)) if r else None
+    if r is not None and r > 100.0 * c["tol"] * aq0 and r > 1e3 * noise and r >= 1e-4 * aq0 and kV < 1e3 and acc <= 3e-2:
         if len(w) != n:
             bad.append(f"arnoldi_eigs with max_iters >= n returned {len(w)} eigenvalues for an operator of size {n}")
         elif hausdorff(w, lam) > acc * scale:
